@@ -70,7 +70,9 @@ type ecdheKeyAgreementGM struct {
 
 func (ka *ecdheKeyAgreementGM) generateServerKeyExchange(config *Config, signCert, cipherCert *Certificate,
 	clientHello *clientHelloMsg, hello *serverHelloMsg) (*serverKeyExchangeMsg, error) {
-	panic("")
+	// the server side of the ECDHE-SM2 key exchange is not implemented: fail the
+	// handshake instead of crashing the process
+	return nil, errors.New("tls: ECDHE-SM2 key exchange is not supported by the server")
 	//	preferredCurves := config.curvePreferences()
 	//
 	//NextCandidate:
@@ -169,7 +171,7 @@ func (ka *ecdheKeyAgreementGM) generateServerKeyExchange(config *Config, signCer
 }
 
 func (ka *ecdheKeyAgreementGM) processClientKeyExchange(config *Config, cert *Certificate, ckx *clientKeyExchangeMsg, version uint16) ([]byte, error) {
-	panic("")
+	return nil, errors.New("tls: ECDHE-SM2 key exchange is not supported by the server")
 	//	if len(ckx.ciphertext) == 0 || int(ckx.ciphertext[0]) != len(ckx.ciphertext)-1 {
 	//		return nil, errClientKeyExchange
 	//	}
